@@ -811,4 +811,118 @@ example : (∀ c ∈ pullEx, Sorted (qrLt true false [1, 2]) c.all) ∧
   decide
 
 
+
+/-! ## 7. stream row-path limit over a paged source; trace multi-instance merge -/
+
+section
+variable {α : Type}
+
+theorem limitLoop_eq (target : Nat) : ∀ (ps : List (List α)) (acc : List α), (∀ p ∈ ps, p ≠ []) →
+    acc.length ≤ target → limitLoop target ps acc = (acc ++ ps.flatten).take target := by
+  intro ps
+  induction ps with
+  | nil => intro acc _ h; simp [limitLoop, List.take_of_length_le h]
+  | cons p ps ih =>
+    intro acc hne hlen
+    simp only [limitLoop]
+    split
+    · rename_i hlt
+      have hp : p ≠ [] := hne p List.mem_cons_self
+      have : p.isEmpty = false := by cases p <;> simp_all
+      simp only [this, Bool.false_eq_true, if_false]
+      rw [ih _ (fun q hq => hne q (List.mem_cons_of_mem _ hq))
+        (by simp only [List.length_append, List.length_take]; omega)]
+      simp only [List.flatten_cons]
+      by_cases hpl : p.length ≤ target - acc.length
+      · rw [List.take_of_length_le hpl, List.append_assoc]
+      · have h1 : (acc ++ p.take (target - acc.length)).length = target := by
+          simp only [List.length_append, List.length_take]; omega
+        rw [List.take_append_of_le_length (by omega), List.take_of_length_le (by omega)]
+        rw [← List.append_assoc, List.take_append_of_le_length (by simp only [List.length_append]; omega)]
+        rw [List.take_append]
+        simp only [List.take_of_length_le (Nat.le_of_lt hlt)]
+    · rename_i hge
+      have : acc.length = target := by omega
+      rw [List.take_append_of_le_length (by omega), List.take_of_length_le (by omega)]
+
+theorem take_flatten_map_take (t : Nat) : ∀ (ps : List (List α)) (s : Nat), s ≤ t →
+    ((ps.map fun p => p.take t).flatten).take s = ps.flatten.take s := by
+  intro ps
+  induction ps with
+  | nil => intro s _; rfl
+  | cons p ps ih =>
+    intro s hs
+    simp only [List.map_cons, List.flatten_cons]
+    by_cases hp : p.length ≤ t
+    · rw [List.take_of_length_le hp, List.take_append, List.take_append,
+        ih _ (by omega)]
+    · have h1 : s ≤ (p.take t).length := by simp only [List.length_take]; omega
+      rw [List.take_append_of_le_length h1, List.take_append_of_le_length (by omega), List.take_take]
+      congr 1; omega
+
+theorem flatten_filter_nonempty (ps : List (List α)) : (ps.filter fun p => !p.isEmpty).flatten = ps.flatten := by
+  induction ps with
+  | nil => rfl
+  | cons p ps ih => cases p <;> simp [ih]
+
+/-- **stream_limit_window.** The row-path `limit.Execute` of the stream plan – page accumulation loop over the
+    successive pulls of the storage result, each pull capped at `limit+offset`, empty pulls skipped – returns exactly
+    `window offset limit` of the concatenated pulls, however the ordered rows are spread over pulls. -/
+theorem stream_limit_window (offset limit : Nat) (pulls : List (List α)) :
+    streamLimit offset limit pulls = window offset limit pulls.flatten := by
+  unfold streamLimit window
+  by_cases h0 : offset + limit > 0
+  · simp only [h0, if_true]
+    rw [limitLoop_eq _ _ [] (by intro p hp; have := (List.mem_filter.mp hp).2; cases p <;> simp_all) (by simp)]
+    simp only [List.nil_append, flatten_filter_nonempty]
+    rw [take_flatten_map_take _ _ _ (Nat.le_refl _)]
+    have hlen : (pulls.flatten.take (limit + offset)).length ≤ limit + offset := by
+      simp only [List.length_take]; omega
+    split
+    · rename_i hle
+      have : (pulls.flatten.drop offset).take limit = [] := by
+        simp only [List.length_take] at hle
+        by_cases hl : limit = 0
+        · subst hl; simp
+        · have : (pulls.flatten.drop offset) = [] := by
+            apply List.length_eq_zero_iff.mp
+            simp only [List.length_drop]; omega
+          rw [this]; simp
+      rw [this]
+    · have hmin : min (offset + limit) (pulls.flatten.take (limit + offset)).length
+          = (pulls.flatten.take (limit + offset)).length := by omega
+      rw [hmin, List.take_length, List.drop_take]
+      congr 1
+      omega
+  · have ho : offset = 0 := by omega
+    have hl : limit = 0 := by omega
+    subst ho; subst hl
+    simp
+end
+
+/-- **trace_stream_merge_sorted.** Cross-instance merge of the trace index: if every sidx instance delivers its
+    stream in key order (e.g. by `sidx_query_spec`), then for every run of the merge heap (any tie choices) followed
+    by the trace-id de-duplication the emitted (key, trace id) sequence is in key order and every emitted entry is the
+    first occurrence of its trace id in that order; without shared trace ids it is a permutation of the union. -/
+theorem trace_stream_merge_sorted (asc : Bool) (streams : List (List Elem))
+    (hs : ∀ s ∈ streams, Sorted (elemLt asc) s) {merged : List Elem}
+    (hm : Merge (elemLt asc) (initHeap streams) merged) :
+    Sorted (elemLt asc) (dedupData [] merged) ∧ (dedupData [] merged).Sublist merged ∧ merged.Perm streams.flatten ∧
+    ((streams.flatten.map (·.data)).Nodup → (dedupData [] merged).Perm streams.flatten) := by
+  have ⟨hp, hsorted⟩ := newItemIter_sorted (strictWeak_elemLt asc) hs hm
+  refine ⟨List.Pairwise.sublist (dedupData_sublist _ _) hsorted, dedupData_sublist _ _, hp, ?_⟩
+  intro hnd
+  rw [dedupData_id [] merged (((hp.map _).nodup_iff).mpr hnd) (by simp)]
+  exact hp
+
+/-- the executable model is such a run, cut into batches -/
+theorem traceMergeStreams_flatten (asc : Bool) (bs : Nat) (streams : List (List Elem)) :
+    (traceMergeStreams asc bs streams).flatten = dedupData [] (kmerge (elemLt asc) streams) ∧
+    Merge (elemLt asc) (initHeap streams) (kmerge (elemLt asc) streams) :=
+  ⟨flatten_chunk _ _, mergeHeap_is_Merge (strictWeak_elemLt asc) _⟩
+
+example : traceMergeStreams true 3 [[⟨1, 10, "a"⟩, ⟨1, 30, "b"⟩], [⟨1, 20, "c"⟩, ⟨1, 40, "a"⟩]]
+    = [[⟨1, 10, "a"⟩, ⟨1, 20, "c"⟩, ⟨1, 30, "b"⟩]] := by decide
+
+
 end Banyan.C09
